@@ -35,9 +35,10 @@ func eventFields(n *types.Named) []string {
 }
 
 func checkC14(c *Ctx) {
+	c.hashLayouts = nil
 	p, r := c.P, c.R
 	r.Min("C14.coverage", 33)
-	r.Min("C14.injective", 5)
+	r.Min("C14.injective", 10)
 	r.Min("C14.key", 2)
 	hashes := p.ImplementersOf("mhub2/types", "ExternalEvent", "Hash")
 	if len(hashes) < 5 {
@@ -133,6 +134,22 @@ func checkC14(c *Ctx) {
 			}
 		}
 		c.checkHashInjective(h, tname, hashed)
+	}
+
+	// no two event types share a byte layout (8-byte / 32-byte / variable parts in the same order)
+	var lays []string
+	for l := range c.hashLayouts {
+		lays = append(lays, l)
+	}
+	sort.Strings(lays)
+	for _, l := range lays {
+		ts := c.hashLayouts[l]
+		sort.Strings(ts)
+		if len(ts) > 1 {
+			r.Bad("C14.injective", "same-layout:"+strings.Join(ts, "+"), "-", "the claim hashes of "+strings.Join(ts, " and ")+" are built with the same byte layout ("+l+") and no type tag: a report of one type can be crafted to carry the identifier of a report of the other, and the votes for both are tallied together")
+		} else {
+			r.Ok("C14.injective", "layout:"+ts[0], "-", "byte layout "+l+" is used by this event type only")
+		}
 	}
 
 	// the members hash covers address and power of every member
@@ -323,6 +340,24 @@ func (c *Ctx) checkHashInjective(h *ssa.Function, tname string, hashed ssa.Value
 			varNames = append(varNames, fields)
 		}
 	}
+	// the layout of the hashed bytes (fixed 8-byte parts, fixed 32-byte parts, variable parts), for the
+	// cross-type comparison: identifiers carry no type tag, so two event types with one layout can collide
+	var lay []string
+	for _, pt := range parts {
+		ex := p.Expr(pt, 0)
+		switch {
+		case strings.HasPrefix(ex, "Uint64ToBigEndian("):
+			lay = append(lay, "8")
+		case strings.HasPrefix(ex, "ExternalSigners.Hash("):
+			lay = append(lay, "32")
+		default:
+			lay = append(lay, "v")
+		}
+	}
+	if c.hashLayouts == nil {
+		c.hashLayouts = map[string][]string{}
+	}
+	c.hashLayouts[strings.Join(lay, "|")] = append(c.hashLayouts[strings.Join(lay, "|")], tname)
 	if nVar >= 2 {
 		r.Bad("C14.injective", "undelimited:"+tname, p.Pos(h.Pos()), sprintf("%d variable-length parts (%s) are concatenated without length delimiters: events whose variable-length fields are shifted across a field boundary (Minter coin \"1\"+amount 0x39.. vs coin \"19\"+amount ..) hash alike", nVar, strings.Join(varNames, " | ")))
 	} else {
